@@ -49,7 +49,8 @@ def systematic():
         for b in (0.5, 1.0, -0.25, 0.1, 1e16):
             vals = [b, math.nextafter(b, math.inf), math.nextafter(b, -math.inf), b + 0.5, b - 0.5, -b, 0.0]
             yield "float", [(c, b)], vals
-        yield "float", [(c, 1)], [0.5, 1.0, 1.5, math.nextafter(1.0, 2), math.nextafter(1.0, 0)]
+        yield "float", [(c, 1)], [0.5, 1.0, 1.5, math.nextafter(1.0, 2), math.nextafter(1.0, 0), float("nan")]
+        yield "float", [(c, 0.5)], [float("nan")]
         for b in (D("1.5"), D("0"), D("-0.10")):
             yield "Decimal", [(c, b)], [b, b + D("0.01"), b - D("0.01"), b + 1, b - 1, D("1.50"), D("-0.1")]
         yield "Decimal", [(c, 2)], [D("2"), D("2.0"), D("1.99"), D("2.01")]
@@ -166,6 +167,9 @@ def encode_case(T, x, out):
     xr = alpha(x)
     outr = alpha(out) if out is not None else None
     nums = [c for c in T["cons"] if c["c"] in NUMC]
+    if isinstance(x, float) and x != x and all(frac(c["py"]) is not None and abs(frac(c["py"]).numerator) <= 30000 and frac(c["py"]).denominator <= 30000
+                                              for c in nums):
+        return Tt, xr, outr             # a NaN against exactly encodable bounds: Values!IsNaN decides
     if nums:
         exact = {}
         vals = [c["py"] for c in nums] + [x] + ([out] if outr is not None and isinstance(out, (int, float, D)) else [])
